@@ -183,17 +183,24 @@ func nothingLeftEdge(f *fn, e *flow.Edge) bool {
 		return false
 	}
 	cv := flow.ConstOf(f.Info, y)
-	if cv == nil || cv.Kind() != constant.Int || constant.Sign(cv) != 0 {
+	if cv == nil {
+		if cv = flow.ConstOf(f.Info, x); cv == nil {
+			return false
+		}
+		op = swapCmp(op)
+	}
+	if cv.Kind() != constant.Int {
 		return false
 	}
-	_ = x
-	switch op {
-	case token.GTR, token.NEQ:
-		return !e.Sense
-	case token.EQL, token.LEQ:
-		return e.Sense
+	k, exact := constant.Int64Val(cv)
+	if !exact {
+		return false
 	}
-	return false
+	// the compared quantity is a length or a byte count (never negative): the edge says "nothing left"
+	// when it is taken for 0 and for no value from 1 upwards – whatever the spelling (== 0, < 1, <= 0, !(> 0) …)
+	zero, ok0 := ival{lo: 0, hi: 0}.cmp(op, k)
+	rest, ok1 := ival{lo: 1, hiInf: true}.cmp(op, k)
+	return ok0 && ok1 && zero == e.Sense && rest != e.Sense
 }
 
 func runC02_2(c *core.Ctx) {
